@@ -2,13 +2,21 @@
 from vlib.core import Query, Plan
 
 R = "vlib.cbmc:cbmc_query"
+RNEG = "harness.C09.negctl:negctl_query"
 H = "harness/C09/h_ec.c"
 U = ["erasure_code/ec_base.c"]
+# XOR-heavy GF(2^8) miters: cadical decides 3x3/GF(4) in ~60-120 s where minisat needs >600 s (measured)
+CADICAL = ["--sat-solver", "cadical"]
 
 
 def rs_documented_safe(m, k):
     """include/erasure_code.h, doc of gf_gen_rs_matrix."""
     return k <= 3 or (k == 4 and m <= 25) or (k == 5 and m <= 10) or (k <= 21 and m - k == 4) or (m - k <= 3)
+
+
+def _rec_cost(m, k):
+    from math import comb
+    return comb(m, k) * k * k * k / 400.0
 
 
 def plan(tier, ctx):
@@ -18,47 +26,72 @@ def plan(tier, ctx):
     for f in (2, 4, 16):
         qs.append(Query("SUBFIELD/gf%d" % f, R, dict(harness=H, units=[], hdefines=["H_SUBFIELD", "FIELD=%d" % f], unwind=17, witness=True),
                         core=True, family="SUBFIELD"))
-    # (a) inversion: ALL n x n matrices with entries in a subfield, real log/antilog tables
-    # core = decided with >= 3x margin under the quick cap; 3x3/GF(4) and 4x4/GF(2) need ~2 min each on an idle machine
-    inv = [(2, 16, True), (3, 2, True), (2, 4, True), (2, 2, False), (1, 16, False)]
-    if not quick:
-        inv += [(3, 4, False), (4, 2, False)]
+    # (a) inversion: ALL n x n matrices with entries in a subfield, the REAL log/antilog tables of ec_base.c
+    # (the vacuity twin re-solves the whole instance, so it is attached to the cheap members of the family only)
+    inv = [(2, 16, True), (3, 4, True), (4, 2, True), (3, 2, True), (2, 4, True), (2, 2, False), (1, 16, False)]
     for (n, f, core) in inv:
         qs.append(Query("INVERT/n%d_gf%d" % (n, f), R,
                         dict(harness=H, units=U, hdefines=["H_INVERT", "N=%d" % n, "FIELD=%d" % f, "DETMAX=4"], unwind=max(17, n * n + 1),
-                             witness=core, timeout=900), core=core, family="INVERT", weight=30 if core else 5))
+                             witness=(n, f) in ((3, 2), (2, 4)), timeout=600 if quick else 1200, flags=CADICAL), core=core, family="INVERT",
+                        weight=100 if (n, f) in ((2, 16), (3, 4), (4, 2)) else 5))
     if not quick:
-        # larger instances with the scalar leaves replaced by the specification (lemma: C12)
-        for (n, f) in ((5, 2), (3, 16), (4, 4)):
-            qs.append(Query("INVERT/leaf/n%d_gf%d" % (n, f), R,
-                            dict(harness=H, units=[], hdefines=["H_INVERT", "N=%d" % n, "FIELD=%d" % f, "DETMAX=5", "LEAF"], unwind=max(17, n * n + 1),
-                                 witness=False, timeout=1800, mem_gb=24), core=False, family="INVERT", weight=60))
+        # 5x5 over GF(2): scalar leaves replaced by the specification (lemma: C12); measured 803 s on a loaded machine
+        qs.append(Query("INVERT/leaf/n5_gf2", R,
+                        dict(harness=H, units=[], hdefines=["H_INVERT", "N=5", "FIELD=2", "DETMAX=5", "LEAF", "LEAF_INV_BY_CONSTRAINT"], unwind=26,
+                             witness=False, timeout=2400, mem_gb=24, flags=CADICAL), core=False, family="INVERT", weight=400))
     # (b) generator matrices: identity top block and the documented coefficient formula at a symbolic (i,j)
-    cau = [(12, 8), (32, 16), (256, 2), (256, 10), (255, 3)] if quick else [(12, 8), (32, 16), (64, 32), (128, 8), (256, 2), (256, 10), (256, 16), (255, 3), (200, 100)]
-    rsm = [(14, 4), (20, 3), (11, 2), (30, 10)] if quick else [(14, 4), (20, 3), (11, 2), (30, 10), (40, 20), (64, 3), (25, 4), (32, 16)]
+    if quick:
+        cau = [(2, 1), (5, 3), (12, 8), (17, 16), (32, 16), (32, 1), (24, 9), (256, 10)]
+        rsm = [(2, 1), (5, 3), (14, 4), (17, 16), (32, 16), (32, 1), (24, 9), (30, 10)]
+    else:
+        allp = [(m, k) for k in range(1, 17) for m in range(k, 33)]
+        cau = allp + [(64, 32), (128, 8), (256, 2), (256, 10), (255, 3), (200, 100)]
+        rsm = allp + [(40, 20), (64, 3)]
     for kind, lst in (("CAUCHY", cau), ("RS", rsm)):
         for (m, k) in lst:
+            core = (m, k) in ((12, 8), (14, 4))
             qs.append(Query("GEN/%s/m%d_k%d" % (kind, m, k), R,
-                            dict(harness=H, units=U, hdefines=["H_GEN_" + kind, "M=%d" % m, "K=%d" % k], unwind=m * k + 2, witness=(m, k) in ((12, 8), (14, 4)),
-                                 timeout=600), core=(m, k) in ((12, 8), (14, 4)), family="GEN/" + kind, weight=m * k / 50.0))
-    # (c) recovery: k symbolic strictly increasing survivor rows (the erasure pattern), decode matrix built as
-    #     examples/ec/ec_simple_example.c does, real gf_invert_matrix: success and inv*B == I
-    rec_c = [(4, 2), (5, 3), (6, 3), (6, 4), (8, 4), (9, 3)] if quick else [(4, 2), (5, 3), (6, 3), (6, 4), (8, 4), (9, 3), (10, 5), (12, 4), (10, 6), (12, 6), (16, 3)]
-    rec_r = [(m, k) for (m, k) in ([(4, 2), (6, 3), (8, 4), (9, 5), (7, 4)] if quick else [(4, 2), (6, 3), (8, 4), (9, 5), (10, 5), (7, 4), (12, 3), (12, 8), (25, 4)]) if rs_documented_safe(m, k)]
+                            dict(harness=H, units=U, hdefines=["H_GEN_" + kind, "M=%d" % m, "K=%d" % k], unwind=max(17, m * k + 2), witness=core,
+                                 timeout=600), core=core, family="GEN/" + kind, weight=m * k / 50.0))
+    # (c) recovery: k symbolic strictly increasing survivor rows (= the erasure pattern), decode matrix built as
+    #     examples/ec/ec_simple_example.c does, real gf_invert_matrix: success and inv*B == B*inv == I
+    if quick:
+        rec_c = [(2, 1), (4, 2), (5, 3), (6, 3), (6, 4), (8, 4), (9, 3), (10, 2), (10, 5), (10, 8)]
+        rec_r = [(4, 2), (6, 3), (8, 4), (7, 4), (9, 5), (10, 5), (10, 7)]
+    else:
+        rec_c = [(m, k) for m in range(2, 13) for k in range(1, m)]
+        rec_r = [(m, k) for m in range(2, 13) for k in range(1, m)] + [(25, 4), (16, 3)]
+    rec_r = [(m, k) for (m, k) in rec_r if rs_documented_safe(m, k)]
     for gen, lst in (("GEN_CAUCHY", rec_c), ("GEN_RS", rec_r)):
         for (m, k) in lst:
-            big = m >= 9
+            big = m >= 9 and k >= 3
+            core = (m, k) in ((6, 3), (8, 4))
             qs.append(Query("RECOVER/%s/m%d_k%d" % (gen[4:], m, k), R,
                             dict(harness=H, units=[] if big else U, hdefines=["H_RECOVER", "M=%d" % m, "K=%d" % k, gen] + (["LEAF"] if big else []),
-                                 unwind=m * k + 2, witness=(m, k) == (6, 3), timeout=900, mem_gb=16), core=(m, k) == (6, 3), family="RECOVER/" + gen[4:], weight=m * k))
+                                 unwind=max(17, m * k + 2), witness=core, timeout=450 if quick else 1800, mem_gb=16,
+                                 flags=CADICAL if big else []), core=core, family="RECOVER/" + gen[4:], weight=_rec_cost(m, k)))
+    # negative control: a documented-UNSAFE Vandermonde pair must have a singular survivor set (solver finds it, native replay confirms)
+    for (m, k) in ([(11, 5)] if quick else [(11, 5), (12, 5)]):
+        qs.append(Query("NEGCTL/RS/m%d_k%d" % (m, k), RNEG,
+                        dict(harness=H, units=U, hdefines=["H_RECOVER", "M=%d" % m, "K=%d" % k, "GEN_RS", "NEGCTL"], unwind=max(27, m * k + 2),
+                             timeout=600 if quick else 1200, mem_gb=16, flags=CADICAL), core=(m == 11), family="NEGCTL", weight=150))
     return Plan("C09", "model_checking", qs, engine="cbmc-c",
                 functions_encoded=["gf_invert_matrix", "gf_gen_cauchy1_matrix", "gf_gen_rs_matrix", "gf_mul", "gf_inv (erasure_code/ec_base.c)"],
-                bounds={"inversion": "ALL n x n matrices with entries in a subfield: quick 2x2/GF(16), 2x2/GF(4), 3x3/GF(2); thorough also 3x3/GF(4), 4x4/GF(2), 5x5/GF(2), 3x3/GF(16), 4x4/GF(4); "
-                                     "ret in {0,-1}; ret==0 <=> det != 0 (cofactor determinant); ret==0 => A*out == out*A == I; nothing written past n*n",
-                        "generators": {"cauchy (m,k)": cau, "rs (m,k)": rsm, "position": "symbolic (i,j)"},
-                        "recovery": {"cauchy (m,k)": rec_c, "rs (m,k), documented-safe only": rec_r, "erasure pattern": "k symbolic strictly increasing survivor indices"}},
-                stubs=["for m >= 9 in RECOVER (and the thorough INVERT/leaf queries) gf_mul/gf_inv are computed by spec/gf256.h through spec/ec_base_leaf.h; justified by C12's exhaustive lemmas; native replay uses the unmodified ec_base.c"],
-                assumptions=["the three entry sets are subfields (checked: SUBFIELD queries)", "C12 (for the LEAF-abstracted queries)"],
-                outside=["inversion over all of GF(2^8) for n >= 2 (measured: 2x2 undecided in 900 s on five back ends)", "n up to 128, m up to 256 in recovery, the full documented-safe (m,k) table",
-                         "block contents (the recovery of data bytes then follows from C03/C12 linearity)"],
-                trusted_base=["cbmc 6.11", "spec/gf256.h"])
+                bounds={"inversion": "ALL n x n matrices with entries in a subfield: 2x2/GF(16), 3x3/GF(4), 4x4/GF(2), 3x3/GF(2), 2x2/GF(4) (+ 5x5/GF(2) thorough); "
+                                     "ret in {0,-1}; ret==0 <=> det != 0 (cofactor determinant over spec_gf_mul, n <= 4(5)); ret==0 => A*out == out*A == I; "
+                                     "nothing written past n*n",
+                        "generators": {"(m,k)": "quick: 8 pairs each; thorough: every 1 <= k <= 16, k <= m <= 32 plus a few up to m = 256", "position": "symbolic (i,j)"},
+                        "recovery": {"cauchy (m,k)": "quick %s; thorough every k < m <= 12" % rec_c if quick else "every k < m <= 12",
+                                     "rs (m,k), documented-safe only": "quick %s" % rec_r if quick else "every k < m <= 12 that the header documents as safe, (25,4), (16,3)",
+                                     "erasure pattern": "k symbolic strictly increasing survivor indices (every subset of k of the m rows)",
+                                     "negative control": "gf_gen_rs_matrix (11,5) [thorough also (12,5)], documented unsafe: solver must exhibit a singular survivor set"}},
+                stubs=["RECOVER for m >= 9, k >= 3 and INVERT/leaf: gf_mul/gf_inv are computed by spec/gf256.h through spec/ec_base_leaf.h (justified by C12's exhaustive "
+                       "lemmas gf_mul == spec_gf_mul, a*gf_inv(a) == 1); native replay uses the unmodified ec_base.c. All other queries link the real ec_base.c."],
+                assumptions=["the three entry sets are subfields of GF(2^8)/0x11D (decided: SUBFIELD queries)", "C12 (for the LEAF-abstracted queries)",
+                             "survivor indices are distinct and in range (ec_simple_example.c builds decode_index[] that way)"],
+                outside=["inversion over all of GF(2^8) for n >= 2 (measured: 2x2 undecided in 900 s on five back ends, and in 600 s with spec leaves / cadical / "
+                         "a case split on the pivot)", "3x3/GF(16) and 4x4/GF(4) (undecided in 1500 s)", "n up to 128, m up to 256 in recovery, the full documented-safe (m,k) table",
+                         "block contents: inv*B == I is decided; that encoding the survivors with inv then reproduces the erased bytes follows from C03/C13 (kernels compute the "
+                         "matrix product) and C12 (field laws) outside this check"],
+                trusted_base=["cbmc 6.11 (cadical / minisat back ends)", "spec/gf256.h"],
+                extra={"negative_control": "NEGCTL/* use harness/C09/negctl.py: status holds iff CBMC reports the NEGCTL assertion violated and the native replay reproduces ret == -1"})
